@@ -39,9 +39,18 @@ type Case struct {
 	Reps   int                `json:"reps,omitempty"`  // storm repetitions
 	// Waiters attached before start (stepwise): each must return true exactly when the model completes.
 	Waiters int `json:"waiters,omitempty"`
+	// Family: structural class of the program used in known-finding signatures
+	// (when empty the silent-step kinds of the failing step are used).
+	Family string `json:"family,omitempty"`
+	// Lenient: the engine may lag behind the reference (the statement of the
+	// inclusive join allows a window between "every activated branch leading to
+	// it has delivered" and "every token of the fork has arrived or ended"):
+	// at every step the engine's pending requests must be a sub-multiset of the
+	// reference's, and equality is demanded once the engine has nothing pending.
+	Lenient bool `json:"lenient,omitempty"`
 }
 
-const Watchdog = 30 * time.Second
+const Watchdog = 8 * time.Second
 
 // Value returns the value task writes at its k-th request (0-based).
 func (c *Case) Value(task string, k int) int64 {
@@ -105,11 +114,26 @@ type Result struct {
 }
 
 // compare checks the engine's observable state against the model at a quiescent point.
-func compare(prop string, v *fw.V, in *drive.Inst, m *refsem.State, step int, action string) bool {
+func compare(prop string, v *fw.V, in *drive.Inst, m *refsem.State, step int, action string, lenient bool) bool {
 	ok := true
 	cls := m.PathClass()
 	exp := m.PendingList()
 	got := in.PendingActs()
+	if lenient && len(got) > 0 {
+		// engine may lag: only "extra" is a violation while it still has work
+		if d := direction(exp, got); d == "extra" || d == "wrong" {
+			if !subMultiset(got, exp) {
+				v.Violate("pending-extra", cls, "step %d (%s): pending requests %v are not all enabled in the reference (%v)", step, action, got, exp)
+				return false
+			}
+		}
+		gotEnds := filterRoot(in.Nodes("CompletionEnd"), m)
+		if !subMultiset(gotEnds, m.RootEnds()) {
+			v.Violate("ends-extra", cls, "step %d (%s): end events reached %v, reference has only %v", step, action, gotEnds, m.RootEnds())
+			return false
+		}
+		return true
+	}
 	if !reflect.DeepEqual(exp, got) && !(len(exp) == 0 && len(got) == 0) {
 		dir := direction(exp, got)
 		v.Violate("pending-"+dir, cls, "step %d (%s): pending requests %v, reference expects %v", step, action, got, exp)
@@ -143,6 +167,20 @@ func compare(prop string, v *fw.V, in *drive.Inst, m *refsem.State, step int, ac
 		ok = false
 	}
 	return ok
+}
+
+func subMultiset(a, b []string) bool {
+	c := map[string]int{}
+	for _, x := range b {
+		c[x]++
+	}
+	for _, x := range a {
+		c[x]--
+		if c[x] < 0 {
+			return false
+		}
+	}
+	return true
 }
 
 func errClass(msg string) string {
@@ -260,7 +298,7 @@ func RunStepwise(prop string, c *Case, env *fw.Env, v *fw.V) *Result {
 		waiters = append(waiters, in.Wait(context.Background()))
 	}
 	if err := in.Start(); err != nil {
-		v.Violate("start-error", "error", "StartAll failed: %v", err)
+		startErr(v, in, err)
 		res.Aborted = true
 		return res
 	}
@@ -275,19 +313,35 @@ func RunStepwise(prop string, c *Case, env *fw.Env, v *fw.V) *Result {
 		return res
 	}
 	blockedCallers(v, q, "after start")
-	if !compare(prop, v, in, m, 0, "start") {
+	if !compare(prop, v, in, m, 0, "start", c.Lenient) {
 		res.Aborted = true
 		finish(v, in, c)
 		return res
 	}
 	occ := map[string]int{}
-	for i, task := range c.Order {
+	order := c.Order
+	for i := 0; i < 400; i++ {
+		var task string
+		if i < len(order) {
+			task = order[i]
+		} else if !c.Lenient {
+			break
+		}
 		var req *drive.Req
-		for _, r := range in.Pending() {
+		pend := in.Pending()
+		for _, r := range pend {
 			if r.Act == task {
 				req = r
 				break
 			}
+		}
+		if req == nil && c.Lenient {
+			if len(pend) == 0 {
+				break
+			}
+			sort.Slice(pend, func(a, b int) bool { return pend[a].Act < pend[b].Act })
+			req = pend[0]
+			task = req.Act
 		}
 		if req == nil {
 			v.Inconclusive("order", "order names %s but it is not pending", task)
@@ -320,7 +374,7 @@ func RunStepwise(prop string, c *Case, env *fw.Env, v *fw.V) *Result {
 			break
 		}
 		blockedCallers(v, q, "after answering "+task)
-		if !compare(prop, v, in, m, i+1, "answer "+task) {
+		if !compare(prop, v, in, m, i+1, "answer "+task, c.Lenient) {
 			res.Aborted = true
 			break
 		}
@@ -337,6 +391,12 @@ func RunStepwise(prop string, c *Case, env *fw.Env, v *fw.V) *Result {
 		}
 	}
 	res.Complete = m.Complete()
+	if c.Lenient && !res.Aborted {
+		// the engine has nothing pending any more: now it must agree with the reference
+		if !compare(prop, v, in, m, res.Steps, "end of run", false) {
+			res.Aborted = true
+		}
+	}
 	if !res.Aborted {
 		final(prop, v, in, m, waiters, res.LastQ)
 	}
@@ -373,6 +433,15 @@ func final(prop string, v *fw.V, in *drive.Inst, m *refsem.State, waiters []*dri
 			}
 		}
 	}
+}
+
+func startErr(v *fw.V, in *drive.Inst, err error) {
+	if err == drive.ErrStartBlocked {
+		v.Violate("caller-blocked", "Process).StartAll", "StartAll still blocked at the quiescent point")
+	} else {
+		v.Violate("start-error", "error", "StartAll failed: %v", err)
+	}
+	in.Cancel()
 }
 
 func finish(v *fw.V, in *drive.Inst, c *Case) {
@@ -425,7 +494,7 @@ func RunStorm(prop string, c *Case, env *fw.Env, v *fw.V) *Result {
 	}
 	w := in.Wait(context.Background())
 	if err := in.Start(); err != nil {
-		v.Violate("start-error", "error", "StartAll failed: %v", err)
+		startErr(v, in, err)
 		res.Aborted = true
 		return res
 	}
